@@ -5,9 +5,15 @@ package main
 
 import (
 	"fmt"
+	"reflect"
 
 	"github.com/cockroachdb/redact"
 )
+
+// regSafe is registered as a safe type and has a String method.
+type regSafe struct{ n int }
+
+func (r regSafe) String() string { return fmt.Sprintf("RS%d", r.n) }
 
 type f struct{}
 
@@ -41,6 +47,8 @@ func main() {
 		redact.JoinTo(&b2, ",", "ab")
 		fmt.Printf("F2 string: %q\n", b2.RedactableString())
 	}()
+	redact.RegisterSafeType(reflect.TypeOf(regSafe{}))
+	fmt.Printf("F5: %q %q\n", redact.Sprint([]interface{}{regSafe{1}}), redact.Sprint(map[string]interface{}{"k": regSafe{2}}))
 	s, e := redact.HelperForErrorf("%w %w", fmt.Errorf("boom"), 5)
 	fmt.Printf("F3: %q err=%v\n", s, e)
 	s, e = redact.HelperForErrorf("%w %w", fmt.Errorf("boom"))
